@@ -43,6 +43,21 @@ type e2eServer struct {
 	lastMsg time.Time
 	// a (re)connecting instance is told its dependencies in responses of at most depChunk services (0: one response)
 	depChunk int
+	// how killed streams end: a gRPC status code, or "EOF" (the handler returns nil: OK end of stream)
+	killKind string
+}
+
+func (s *e2eServer) killErr() error {
+	s.mu.Lock()
+	k := s.killKind
+	s.mu.Unlock()
+	if k == "" {
+		return status.Error(codes.Unavailable, "stream killed by the scenario")
+	}
+	if k == "EOF" {
+		return nil
+	}
+	return errOfKind(k)
 }
 
 func newE2EServer() *e2eServer {
@@ -77,7 +92,7 @@ func (s *e2eServer) StreamDependencies(req *api.DependencyDiscoveryRequest, stre
 				return err
 			}
 		case <-s.depKill:
-			return status.Error(codes.Unavailable, "dependency stream killed by the scenario")
+			return s.killErr()
 		case <-stream.Context().Done():
 			return stream.Context().Err()
 		}
@@ -124,7 +139,7 @@ func (s *e2eServer) serveSvc(scope string, ctx context.Context, recv func() (sub
 			s.lastMsg = time.Now()
 			s.mu.Unlock()
 		case <-rec.kill:
-			return status.Error(codes.Unavailable, "stream killed by the scenario")
+			return s.killErr()
 		case <-ctx.Done():
 			return ctx.Err()
 		}
